@@ -17,6 +17,7 @@ package locate
 //               topology-changing goroutine (under -race), then convergence.
 
 import (
+	"bytes"
 	"fmt"
 	"math/rand"
 	"runtime"
@@ -243,6 +244,117 @@ func (w *c09World) convergeFailure(key []byte, res c09SendResult) {
 	w.violate(sig, fmt.Sprintf("after the changes stopped the request for key %s did not converge within %d ms of back-off budget: loops=%d rpcs=%d err=%v last region error=%s",
 		c09K(key), c09ConvergeBudgetMs, res.loops, res.rpcs, res.err, res.lastRegEr),
 		map[string]any{"key": c09K(key), "loops": res.loops, "rpcs": res.rpcs, "error": fmt.Sprint(res.err)})
+}
+
+// motifRightDerive scripts the sequence in which the cache holds two entries
+// of ONE region id under different start keys and then meets a stale PD
+// answer for that id:
+//
+//	the wide region X is cached; X splits and the original id keeps the RIGHT
+//	half (new id Y on the left); X gets a conf change; the old wide entry is
+//	invalidated (or left to expire / to the GC); a right-half key is looked up
+//	(current X learned), then a left-half key (Y learned, the old wide X entry
+//	evicted); X's entry needs a refresh and the first PD answer comes from the
+//	topology before the conf change (same version, older conf_ver).
+//
+// All lookups are judged by the usual oracles; clause (4) by the index walker.
+func (w *c09World) motifRightDerive(rng *rand.Rand, ph c09Phase) bool {
+	type cand struct {
+		id uint64
+		k  string
+		kl []byte
+	}
+	var cs []cand
+	for _, r := range w.cur().regs {
+		s, e := w.dec(r.Meta.StartKey), w.dec(r.Meta.EndKey)
+		for _, k := range w.cands {
+			if bytes.Compare(s, []byte(k)) < 0 && (len(e) == 0 || bytes.Compare([]byte(k), e) < 0) {
+				cs = append(cs, cand{r.Meta.Id, k, s})
+			}
+		}
+	}
+	if len(cs) == 0 {
+		return false
+	}
+	c := cs[rng.Intn(len(cs))]
+	kr, kl := []byte(c.k), c.kl
+	if rng.Intn(2) == 0 {
+		kr = append([]byte(c.k), 0)
+	}
+	locate := func(key []byte) *KeyLocation {
+		w.logf("motif LocateKey(%s)", c09K(key))
+		loc, err := w.cache.LocateKey(w.bo(c09LookupBudgetMs), key)
+		if err != nil {
+			w.lookupErr(ph, "LocateKey", err, false)
+			w.observe("op-end", nil)
+			return nil
+		}
+		w.logf("  -> %s", c09LocStr(loc))
+		w.checkLoc("LocateKey", key, loc, false)
+		w.observe("op-end", nil)
+		return loc
+	}
+	w.logf("MOTIF right-derive on r%d at %s", c.id, c.k)
+	wide := locate(kr)
+	w.tgtRegion, w.tgtKey, w.forceDerive = c.id, c.k, 2
+	d := w.change(rng, 0)
+	w.tgtKey, w.forceDerive = "", 0
+	if d == "" {
+		w.tgtRegion = 0
+		return false
+	}
+	nConf := 1 + rng.Intn(2)
+	snapBeforeConf := w.cur().seq
+	for i := 0; i < nConf; i++ {
+		if w.change(rng, 3+rng.Intn(2)) == "" {
+			if w.change(rng, 3) == "" {
+				w.change(rng, 4)
+			}
+		}
+	}
+	w.tgtRegion = 0
+	if w.cur().seq == snapBeforeConf {
+		return false // no conf change was possible
+	}
+	switch rng.Intn(3) {
+	case 0:
+		if wide != nil {
+			w.logf("motif INVALIDATE %s", c09LocStr(wide))
+			w.cache.InvalidateCachedRegion(wide.Region)
+		}
+	case 1:
+		if c09WBOp != nil {
+			w.logf("motif WB %s", c09WBOp(w, rng))
+		}
+	}
+	var x *KeyLocation
+	if rng.Intn(4) > 0 {
+		x = locate(kr)
+		locate(kl)
+	} else {
+		locate(kl)
+		x = locate(kr)
+	}
+	if x != nil {
+		if rng.Intn(3) > 0 || c09WBOp == nil {
+			w.logf("motif INVALIDATE %s", c09LocStr(x))
+			w.cache.InvalidateCachedRegionWithReason(x.Region, []InvalidReason{Other, NoLeader, StoreNotFound}[rng.Intn(3)])
+		} else {
+			w.logf("motif WB %s", c09WBOp(w, rng))
+		}
+	}
+	if rng.Intn(4) > 0 {
+		w.mu.Lock()
+		w.forceSnap = snapBeforeConf
+		w.mu.Unlock()
+	}
+	locate(kr)
+	w.mu.Lock()
+	w.forceSnap = -1
+	w.mu.Unlock()
+	locate(kr)
+	w.r.Count("motif_right_derive", 1)
+	return true
 }
 
 // checkConverged is clause (5): every key's request reaches the leader of the
@@ -480,7 +592,14 @@ func c09Dynamic(r *vrep.Report, stream string, idx int, mvcc mocktikv.MVCCStore,
 	chaos := c09Phase{quiet: false}
 	weights := []int{14, 12, 6, 8, 18, 30, 12}
 	steps := 25 + rng.Intn(30)
+	motifAt := -1
+	if rng.Intn(2) == 0 {
+		motifAt = rng.Intn(steps)
+	}
 	for i := 0; i < steps; i++ {
+		if i == motifAt {
+			w.motifRightDerive(rng, chaos)
+		}
 		x := rng.Intn(100)
 		switch {
 		case x < 28:
